@@ -1,5 +1,5 @@
-//! Scripted test buildpack. `main` is exactly what `buildpack_main!` expands to: the real
-//! `libcnb_runtime`. The executable is reached through symlinks named detect / build / (wrong names).
+//! Scripted test buildpack (shared by the executables vpbp - which calls `libcnb_runtime` directly - and vpbpm - whose `main` is
+//! written by `buildpack_main!`). The executable is reached through symlinks named detect / build / (wrong names).
 //! Behaviour comes from the JSON file named by $VPBP_SCRIPT; observations go to marker / dump files.
 use libcnb::build::{BuildContext, BuildResult, BuildResultBuilder};
 use libcnb::data::build_plan::{BuildPlanBuilder, Require};
@@ -17,9 +17,9 @@ use std::io::Write;
 use vpharness::{jarr, jstr, os_hex, toml_table_from_json, toml_to_json};
 
 #[derive(Debug)]
-struct ScriptedError(#[allow(dead_code)] String);
+pub struct ScriptedError(#[allow(dead_code)] String);
 
-struct Bp {
+pub struct Bp {
     script: Value,
 }
 
@@ -59,6 +59,17 @@ fn sbom_format(s: &str) -> SbomFormat {
         "spdx" => SbomFormat::SpdxJson,
         _ => SbomFormat::SyftJson,
     }
+}
+
+/// "cdx" / "spdx" / "syft" (optionally "#n"): a document handed over as bytes. "cdxbom": a `cyclonedx_bom` model converted by libcnb
+/// itself (the optional `cyclonedx-bom` feature) - libcnb writes what the model says, nothing of its own
+fn make_sbom(kind: &str, f: &str) -> Sbom {
+    if f == "cdxbom" {
+        let mut bom = cyclonedx_bom::models::bom::Bom::default();
+        bom.serial_number = None;
+        return Sbom::try_from(bom).expect("cyclonedx bom to json");
+    }
+    Sbom::from_bytes(sbom_format(f), format!("{{\"{kind}\":\"{f}\"}}"))
 }
 
 impl Buildpack for Bp {
@@ -111,6 +122,11 @@ impl Buildpack for Bp {
         d["layers_dir"] = json!(c.layers_dir.to_string_lossy());
         d["layers_dir_hex"] = json!(os_hex(c.layers_dir.as_os_str()));
         d["plan"] = json!(c.buildpack_plan.entries.iter().map(|e| json!({"name": e.name, "metadata": toml_to_json(&toml::Value::Table(e.metadata.clone()))})).collect::<Vec<_>>());
+        // the same entries through the typed accessor Entry::metadata::<T>() with a map type: exactly the keys and values of the table
+        d["plan_typed"] = json!(c.buildpack_plan.entries.iter().map(|e| match e.metadata::<std::collections::BTreeMap<String, toml::Value>>() {
+            Ok(m) => json!({"name": e.name, "metadata": toml_to_json(&toml::Value::Table(m.into_iter().collect()))}),
+            Err(err) => json!({"name": e.name, "error": err.to_string()}),
+        }).collect::<Vec<_>>());
         d["store"] = c.store.as_ref().map_or(Value::Null, |s| toml_to_json(&toml::Value::Table(s.metadata.clone())));
         dump(&self.script, &d);
         let spec = &self.script["build"];
@@ -125,15 +141,32 @@ impl Buildpack for Bp {
                 "launch" =>
                 if let Some(l) = spec.get("launch").filter(|l| !l.is_null()) {
                     let mut lb = LaunchBuilder::new();
-                    for p in jarr(l, "processes") {
+                    let processes: Vec<libcnb::data::launch::Process> = jarr(l, "processes").iter().map(|p| {
                         let mut pb = ProcessBuilder::new(jstr(p, "type").parse().expect("type"), jarr(p, "command").iter().map(|x| x.as_str().unwrap().to_string()).collect::<Vec<_>>());
                         pb.args(jarr(p, "args").iter().map(|x| x.as_str().unwrap().to_string()).collect::<Vec<_>>());
                         pb.default(p.get("default").and_then(Value::as_bool).unwrap_or(false));
-                        lb.process(pb.build());
-                    }
-                    for kv in jarr(l, "labels") {
+                        pb.build()
+                    }).collect();
+                    let labels: Vec<libcnb::data::launch::Label> = jarr(l, "labels").iter().map(|kv| {
                         let kv = kv.as_array().unwrap();
-                        lb.label(libcnb::data::launch::Label { key: kv[0].as_str().unwrap().into(), value: kv[1].as_str().unwrap().into() });
+                        libcnb::data::launch::Label { key: kv[0].as_str().unwrap().into(), value: kv[1].as_str().unwrap().into() }
+                    }).collect();
+                    let slices: Vec<libcnb::data::launch::Slice> = l.get("slices").and_then(Value::as_array).map(|a| a.iter().map(|g| {
+                        libcnb::data::launch::Slice { path_globs: g.as_array().unwrap().iter().map(|x| x.as_str().unwrap().to_string()).collect() }
+                    }).collect()).unwrap_or_default();
+                    if l.get("plural").and_then(Value::as_bool).unwrap_or(false) {
+                        // the batch setters: everything handed over in one call each
+                        lb.processes(processes).labels(labels).slices(slices);
+                    } else {
+                        for p in processes {
+                            lb.process(p);
+                        }
+                        for x in labels {
+                            lb.label(x);
+                        }
+                        for x in slices {
+                            lb.slice(x);
+                        }
                     }
                     b = b.launch(lb.build());
                 },
@@ -151,11 +184,11 @@ impl Buildpack for Bp {
                 },
                 "bsbom" =>
                 for f in jarr(spec, "build_sboms") {
-                    b = b.build_sbom(Sbom::from_bytes(sbom_format(f.as_str().unwrap()), format!("{{\"build\":\"{}\"}}", f.as_str().unwrap())));
+                    b = b.build_sbom(make_sbom("build", f.as_str().unwrap()));
                 },
                 _ =>
                 for f in jarr(spec, "launch_sboms") {
-                    b = b.launch_sbom(Sbom::from_bytes(sbom_format(f.as_str().unwrap()), format!("{{\"launch\":\"{}\"}}", f.as_str().unwrap())));
+                    b = b.launch_sbom(make_sbom("launch", f.as_str().unwrap()));
                 },
                 }
                 }
@@ -205,11 +238,17 @@ fn inproc(path: &str) {
     }
 }
 
-fn main() {
+/// The scripted buildpack for this process ($VPBP_SCRIPT).
+pub fn bp_from_env() -> Bp {
+    let script: Value = std::env::var("VPBP_SCRIPT").ok().and_then(|p| std::fs::read(p).ok()).and_then(|b| serde_json::from_slice(&b).ok()).unwrap_or(json!({}));
+    Bp { script }
+}
+
+/// What the `vpbp` executable does: in-process mode, or the direct call of `libcnb_runtime`.
+pub fn main_direct() {
     if let Ok(p) = std::env::var("VPBP_INPROC") {
         inproc(&p);
         return;
     }
-    let script: Value = std::env::var("VPBP_SCRIPT").ok().and_then(|p| std::fs::read(p).ok()).and_then(|b| serde_json::from_slice(&b).ok()).unwrap_or(json!({}));
-    libcnb::libcnb_runtime(&Bp { script });
+    libcnb::libcnb_runtime(&bp_from_env());
 }
